@@ -1,6 +1,7 @@
 package zv
 
 import (
+	"go/constant"
 	"go/token"
 	"go/types"
 	"regexp"
@@ -40,6 +41,8 @@ func checkC02(c *Ctx) {
 	c.Rule("R2.6", "number formatting: strconv base 10 / shortest 'f' on every path; NaN/±Inf arms agree with their literals", 4)
 	c.Rule("R2.7", "error expansion: message, Causes, Verbose-if-different; nil causes skipped", 4)
 	c.Rule("R2.8", "reflection fallback: HTML escaping off, null shortcut, reset before / trim after", 3)
+	c.Rule("R2.15", "built-in numeric time/duration encoders emit the nanosecond count or its quotient by a constant with a single rounding", 4)
+	c2NumericEncoders(c, "R2.15")
 	c.Rule("R2.14", "short caller representation: everything after the penultimate '/', the whole path with fewer than two separators", 1)
 	c2TrimmedPath(c, "R2.14")
 	c.Rule("R2.13", "what decodes must first parse: every path of every encoder method writes exactly one well-formed member / element / entry (token grammar)", 20)
@@ -914,4 +917,133 @@ func c2TrimmedPath(c *Ctx, rule string) {
 		bad = append(bad[:2:2], "… "+itoa(len(bad)-2)+" more")
 	}
 	c.Check(len(bad) == 0 && len(worlds) >= 5, rule, fn.String(), "keeps-last-two-elements", fn.Pos(), "over %d paths on a %d-byte file name (every position of the last and of the penultimate '/', or none): the short caller is everything after the penultimate separator, and the whole path when there are fewer than two: %v", len(seqs), N, bad)
+}
+
+// c2NumericEncoders: the built-in numeric time and duration encoders emit the documented quantity computed with a
+// single rounding: the 64-bit nanosecond count itself, or its quotient by a constant - as an integer division for
+// integer output, as one float64 division of the converted count for float output. The expression handed to the
+// encoder is normalised (Duration.Nanoseconds() and int64(d) are the count, Milliseconds() is count/1e6, constants are
+// folded) and compared with the documented formula; time.Duration.Seconds()/Minutes()/Hours(), which add the rounded
+// quotient and the rounded remainder, are a different formula (they differ in the last place for most values).
+func c2NumericEncoders(c *Ctx, rule string) {
+	want := map[string]string{
+		"SecondsDurationEncoder": "AppendFloat64(f64(n)/1e+09)",
+		"MillisDurationEncoder":  "AppendInt64((n/1000000))",
+		"NanosDurationEncoder":   "AppendInt64(n)",
+		"EpochTimeEncoder":       "AppendFloat64(f64(n)/1e+09)",
+		"EpochMillisTimeEncoder": "AppendFloat64(f64(n)/1e+06)",
+		"EpochNanosTimeEncoder":  "AppendInt64(n)",
+	}
+	n := 0
+	for name, w := range want {
+		fn := c.Func(CorePath, name)
+		if !c.Anchor(rule, "zapcore."+name, fn != nil && len(fn.Params) == 2) {
+			continue
+		}
+		src := fn.Params[0]
+		var norm func(st *ConcState, v ssa.Value, d int) string
+		norm = func(st *ConcState, v ssa.Value, d int) string {
+			if d > 10 {
+				return "?"
+			}
+			for k := 0; k < 12; k++ {
+				if ct, ok := v.(*ssa.ChangeType); ok {
+					v = ct.X
+					continue
+				}
+				nx := st.Step(v)
+				if nx == nil {
+					break
+				}
+				v = nx
+			}
+			switch x := v.(type) {
+			case *ssa.Parameter:
+				if x == src {
+					if strings.HasSuffix(x.Type().String(), "time.Duration") {
+						return "n"
+					}
+					return "t"
+				}
+			case *ssa.Const:
+				if x.Value != nil {
+					if f, ok := constant.Float64Val(constant.ToFloat(x.Value)); ok {
+						if _, isInt := types.Unalias(x.Type()).Underlying().(*types.Basic); isInt && types.Unalias(x.Type()).Underlying().(*types.Basic).Info()&types.IsInteger != 0 {
+							return strconv.FormatInt(int64(f), 10)
+						}
+						return strconv.FormatFloat(f, 'g', -1, 64)
+					}
+				}
+			case *ssa.Convert:
+				in := norm(st, x.X, d+1)
+				b, _ := types.Unalias(x.Type()).Underlying().(*types.Basic)
+				switch {
+				case b != nil && b.Kind() == types.Float64:
+					if k, err := strconv.ParseInt(in, 10, 64); err == nil {
+						return strconv.FormatFloat(float64(k), 'g', -1, 64)
+					}
+					return "f64(" + in + ")"
+				case b != nil && (b.Kind() == types.Int64 || b.Kind() == types.Int):
+					return in
+				}
+				return "conv[" + x.Type().String() + "](" + in + ")"
+			case *ssa.BinOp:
+				a, bb := norm(st, x.X, d+1), norm(st, x.Y, d+1)
+				switch x.Op {
+				case token.QUO:
+					if _, isF := types.Unalias(x.Type()).Underlying().(*types.Basic); isF && types.Unalias(x.Type()).Underlying().(*types.Basic).Info()&types.IsFloat != 0 {
+						return a + "/" + bb
+					}
+					return "(" + a + "/" + bb + ")"
+				}
+				return "(" + a + x.Op.String() + bb + ")"
+			case *ssa.Call:
+				if f := CalleeFunc(x); f != nil && len(x.Call.Args) >= 1 {
+					recv := norm(st, x.Call.Args[0], d+1)
+					switch f.FullName() {
+					case "(time.Duration).Nanoseconds":
+						return recv
+					case "(time.Duration).Microseconds":
+						return "(" + recv + "/1000)"
+					case "(time.Duration).Milliseconds":
+						return "(" + recv + "/1000000)"
+					case "(time.Time).UnixNano":
+						if recv == "t" {
+							return "n"
+						}
+					case "(time.Time).UnixMilli":
+						if recv == "t" {
+							return "UnixMilli(t)" // truncates: not the float quotient
+						}
+					}
+					return f.Name() + "(" + recv + ")"
+				}
+			}
+			return "?" + st.Desc(v)
+		}
+		seqs, trunc := ConcPaths(fn, ConcCfg{
+			Event: func(in ssa.Instruction, st *ConcState) string {
+				x, ok := in.(*ssa.Call)
+				if !ok || !x.Call.IsInvoke() || !strings.HasPrefix(x.Call.Method.Name(), "Append") || len(x.Call.Args) != 1 {
+					return ""
+				}
+				return x.Call.Method.Name() + "(" + norm(st, x.Call.Args[0], 0) + ")"
+			},
+		})
+		if trunc || len(seqs) == 0 {
+			c.Und(rule, fn.String(), "formula", fn.Pos(), "path exploration incomplete")
+			continue
+		}
+		n++
+		var bad []string
+		for _, sq := range seqs {
+			if sq != w {
+				bad = append(bad, sq)
+			}
+		}
+		c.Check(len(bad) == 0, rule, fn.String(), "formula", fn.Pos(), "on every path the encoder is given %s (n: the 64-bit nanosecond count; one conversion, one division): %v", w, bad)
+	}
+	if n < 4 {
+		c.Bad(rule, "numeric encoders", "count", token.NoPos, "expected the built-in numeric time/duration encoders, decided %d", n)
+	}
 }
